@@ -428,6 +428,7 @@ type c18rSrv struct {
 	groups []*c18rGroup
 	word   string
 	fp, enc string // what the last request's header announced / was encrypted to
+	before  func()
 	now    int64 // jwt clock
 	// per request
 	ran, cm, use, ucb, scb int
@@ -492,6 +493,13 @@ func c18rNewSrv(cfg verifh.Cfg, dir string) *c18rSrv {
 	}
 	h := func(w http.ResponseWriter, r *http.Request) {
 		e.ran++
+		if f := e.before; f != nil { // inter: another request goes through the server while this handler has not read its body yet
+			e.before = nil
+			ran, seen, ctx, claims := e.ran, e.seen, e.ctx, e.claims
+			e.ctx = map[string]string{} // the second request's handler records into a map of its own
+			f()
+			e.ran, e.seen, e.ctx, e.claims = ran, seen, ctx, claims
+		}
 		e.seen, _ = io.ReadAll(r.Body)
 		for k := range e.claims {
 			if v := r.Context().Value(k); v != nil {
@@ -763,7 +771,30 @@ func c18rStart(dir string) func(cfg verifh.Cfg) (func(op []string) string, func(
 				}
 				e.ran, e.cm, e.use, e.ucb, e.scb, e.seen, e.ctx, e.claims = 0, 0, 0, 0, 0, nil, map[string]string{}, claims
 				rec := httptest.NewRecorder()
+				e.before = nil
+				if ik := kv["inter"]; ik != "" {
+					// request B: the same route with another body and A's header (forged: its signature does not cover B's body), or the
+					// POST route of another group, while A sits in its handler
+					bbody := c18rUnhex(kv["bbody"])
+					e.before = func() {
+						gB := g
+						if ik == "other-route" {
+							gB = e.groups[(gi+1)%len(e.groups)]
+						}
+						rB := httptest.NewRequest(http.MethodPost, "http://localhost"+gB.path("b")+"?"+query, bytes.NewReader(bbody))
+						if hv := r.Header.Get("X-Content-Security"); hv != "" {
+							rB.Header.Set("X-Content-Security", hv)
+						}
+						if a := r.Header.Get("Authorization"); a != "" {
+							rB.Header.Set("Authorization", a)
+						}
+						cm, use, ucb, scb := e.cm, e.use, e.ucb, e.scb
+						e.svr.router.ServeHTTP(httptest.NewRecorder(), rB)
+						e.cm, e.use, e.ucb, e.scb = cm, use, ucb, scb
+					}
+				}
 				e.svr.router.ServeHTTP(rec, r)
+				e.before = nil
 				return fmt.Sprintf("%s fp=%s enc=%s csok=%d ran=%d status=%d ctx=%s cm=%d use=%d ucb=%d scb=%d seen=%s", facts, c18rHex([]byte(e.fp)), e.enc, csok, e.ran,
 					rec.Code, c18rPairs(e.ctx), e.cm, e.use, e.ucb, e.scb, c18rHex(e.seen))
 			}
@@ -908,8 +939,16 @@ func c18rGenSection(r *verifh.Rng, idx int, kindPlan *[]int) verifh.Section {
 			}
 			body = hex.EncodeToString(b)
 		}
-		ops = append(ops, fmt.Sprintf("req g=%d r=%s tok=%s cs=%s uid=%d now=%d body=%s", g, rt, tok, cs, r.Intn(100000),
-			1_700_000_000+r.Intn(100_000_000), body))
+		op := fmt.Sprintf("req g=%d r=%s tok=%s cs=%s uid=%d now=%d body=%s", g, rt, tok, cs, r.Intn(100000),
+			1_700_000_000+r.Intn(100_000_000), body)
+		if rt == "b" && body != "-" && r.Chance(1, 4) {
+			bb := make([]byte, r.Range(0, 60))
+			for j := range bb {
+				bb[j] = byte(r.Intn(256))
+			}
+			op += fmt.Sprintf(" inter=%s bbody=%s", r.PickS("forged", "other-route"), c18rHex(bb))
+		}
+		ops = append(ops, op)
 	}
 	return verifh.Section{Cfg: cfg, Ops: ops}
 }
